@@ -63,6 +63,7 @@ type G struct {
 	inFunc   bool
 	chaos    int  // percentage of deliberately ill-typed operands
 	noPrint  bool
+	noSqrt   bool
 	counters int
 }
 
@@ -171,6 +172,9 @@ func (g *G) expr(ty string, d int) string {
 			g.tag("float-div")
 			return g.expr("float", d-1) + " / " + Pick(g.r, []string{"2", "0.5", "4.0", g.atom("float")})
 		case 4:
+			if g.noSqrt {
+				return g.atom("float")
+			}
 			g.tag("sqrt")
 			return "√" + Pick(g.r, []string{"4", "9", "16", "2.25", "0", "1"})
 		case 5:
@@ -646,6 +650,42 @@ func Generate(prop, tier string, seed uint64) []GenCase {
 		out = genContainers("S-cont", seed, 100*scale)
 	case "C17":
 		out = genBuiltinCalls("S-builtin", seed, 12*scale)
+	case "C12":
+		out = genPrec("S-prec", seed, 300*scale, tier == "thorough")
+	case "C13":
+		dm := 3
+		if tier == "thorough" {
+			dm = 6
+		}
+		out = genInvalid("S-invalid", seed, 60*scale, dm)
+	case "C14":
+		out = genLex("S-lex", seed, 400*scale)
+	case "C08":
+		out = genFuzz("S-fuzz", seed, 500*scale)
+	case "C03":
+		out = genOpt("S-opt", seed, 300*scale)
+		out = append(out, genOptKnown("S-opt-known", seed)...)
+	case "C02":
+		out = genCtlTemplates("S-ctl-templates", seed)
+		out = append(out, genCtl("S-ctl", seed+1, 400*scale, []string{"code"})...)
+	case "C06":
+		out = genFn("S-fn", seed, 300*scale)
+	case "C07":
+		out = genHist("S-hist", seed, 150*scale)
+	case "C09":
+		out = genCancel("S-cancel", seed, 40*scale)
+	case "C15":
+		out = genAlias("S-alias", seed, 0)
+	case "C19":
+		out = genDet("S-det", seed, 40*scale, 8)
+	case "C20":
+		out = genApi("S-api", seed, 150*scale)
+	case "C04":
+		out = genRefl("S-refl", seed, 40*scale)
+	case "C18":
+		out = genCtl("S-wf", seed, 400*scale, []string{"code", "wf"})
+		out = append(out, genOpt("S-wf-opt", seed+2, 100*scale)...)
+		out = append(out, genFn("S-wf-fn", seed+3, 100*scale)...)
 	case "C10":
 		out = genBuiltinCalls("S-builtin", seed, 6*scale)
 		out = append(out, genPrograms("S-prog", seed+1, 100*scale, 5, nil)...)
@@ -655,6 +695,3 @@ func Generate(prop, tier string, seed uint64) []GenCase {
 	return out
 }
 
-func RunOracles(prop string, cases []GenCase, impl map[string]map[string]string) []OracleViolation {
-	return nil
-}
